@@ -130,6 +130,7 @@ def oracleLine (pid kind : String) (args : List String) (go : String) : String :
     walkLayout pid steps go
   | "C11", "prog", [steps] => walkPara steps go
   | "C19", "hist", [steps] => c19Verdict steps go
+  | "C01", "hist", [steps] => c01HistVerdict steps go
   | "C20", "hist", [_] => c20HistVerdict go
   | "C20", "progz", [_] => c20ProgVerdict go
   | "C03", "rel", [rho, steps] => relVerdict rho steps go
